@@ -292,6 +292,10 @@ func plainLine(t *rapid.T, s Schema) string {
 		}
 		line += p
 	}
+	// A writer that ends its lines with CR LF leaves a carriage return at the end of the message.
+	if rapid.IntRange(0, 7).Draw(t, "crlf") == 0 {
+		line += "\r"
+	}
 	return line
 }
 
